@@ -178,6 +178,8 @@ struct Hist {
     /// the branch the clone was taken from ("" = main)
     clone_src: String,
     cloned: bool,
+    /// versions already reported as no longer readable (no further expectations built on them)
+    broken: BTreeSet<(String, u64)>,
 }
 
 struct C09 {
@@ -308,6 +310,7 @@ impl C09 {
         }
         for k in broken {
             h.snap.remove(&k); // reported once
+            h.broken.insert(k);
         }
         // tags resolve to what they were given
         if let Ok(main) = self.handle(h, &None) {
@@ -494,7 +497,7 @@ impl C09 {
             return match self.kit.create(&uri, &spec, &[rows.clone()], &knobs) {
                 Ok(ds) => {
                     let v = ds.version().version;
-                    let mut hh = Hist { uri, clone_uri, spec, snap: BTreeMap::new(), latest: BTreeMap::new(), parent: BTreeMap::new(), tags: BTreeMap::new(), clone_rows: None, clone_src: String::new(), cloned: false };
+                    let mut hh = Hist { uri, clone_uri, spec, snap: BTreeMap::new(), latest: BTreeMap::new(), parent: BTreeMap::new(), tags: BTreeMap::new(), clone_rows: None, clone_src: String::new(), cloned: false, broken: BTreeSet::new() };
                     hh.snap.insert((String::new(), v), rows);
                     hh.latest.insert(String::new(), v);
                     *h = Some(hh);
@@ -535,6 +538,7 @@ impl C09 {
                             Some(rows) => {
                                 h.snap.insert((name.clone(), v), rows);
                             }
+                            None if h.broken.contains(&(skey.clone(), ver)) || !h.latest.contains_key(&skey) => {} // source already reported broken, or a zombie
                             None => res.failures.push(OracleFailure { what: format!("create_branch from ({skey},{ver}) succeeded although the harness never created that version"), key: Some("branch_from_unknown_version".into()), line }),
                         }
                         h.latest.insert(name.clone(), v);
@@ -595,12 +599,14 @@ impl C09 {
                         let v = nd.version().version;
                         let key = br.clone().unwrap_or_default();
                         // (no expectation for a version built on one that was already reported broken)
-                        let base = if over { Some(vec![]) } else { h.latest.get(&key).and_then(|lv| h.snap.get(&(key.clone(), *lv))).cloned() };
-                        if let Some(mut all) = base {
-                            all.extend(rows);
-                            h.snap.insert((key.clone(), v), all);
-                        }
-                        h.latest.insert(key, v);
+                        if h.latest.contains_key(&key) {
+                            let base = if over { Some(vec![]) } else { h.latest.get(&key).and_then(|lv| h.snap.get(&(key.clone(), *lv))).cloned() };
+                            if let Some(mut all) = base {
+                                all.extend(rows);
+                                h.snap.insert((key.clone(), v), all);
+                            }
+                            h.latest.insert(key, v);
+                        } // else: a zombie directory of a branch the harness deleted — nothing is expected of it
                         self.recheck(h, Mut::Additive, line, &mut res.failures);
                         format!("ok v={v}")
                     }
@@ -683,7 +689,7 @@ impl C09 {
                     Ok(()) => {
                         h.latest.remove(&name);
                         h.snap.retain(|(b, _), _| *b != name);
-                        h.parent.remove(&name);
+                        h.broken.retain(|(b, _)| *b != name);
                         self.recheck(h, Mut::Delete(&name), line, &mut res.failures);
                         let ls = self.ls(h);
                         // every live branch keeps its directory; the deleted one is gone unless a live branch is nested below
@@ -907,8 +913,8 @@ impl C09 {
         let mut out = vec![];
         // exhaustive part: strings over ALPHA by enumeration index
         let exhaustive_cases = match tier {
-            Tier::Quick => 500,
-            _ => 2500,
+            Tier::Quick | Tier::Search => 500,
+            Tier::Thorough => 2500,
         };
         if idx < exhaustive_cases {
             // all strings up to length 5 over 7 letters = 19608; spread over the cases
@@ -1096,15 +1102,15 @@ impl Prop for C09 {
     }
     fn budget(&self, tier: Tier) -> usize {
         match tier {
-            Tier::Quick => 1100,
-            Tier::Thorough => 9000,
-            Tier::Search => 4000,
+            Tier::Quick => 1000,
+            Tier::Thorough => 6500,
+            Tier::Search => 2200,
         }
     }
     fn gen_case(&mut self, rng: &mut Rng, tier: Tier, idx: usize) -> Vec<String> {
         let (exh, pure_rand) = match tier {
-            Tier::Quick => (500, 200),
-            _ => (2500, 1500),
+            Tier::Quick | Tier::Search => (500, 200),
+            Tier::Thorough => (2500, 1500),
         };
         if idx < exh + pure_rand {
             self.gen_pure(rng, idx, tier)
